@@ -237,6 +237,14 @@ theorem length_le_streamItems (es : List SEntry) : es.length ≤ streamItems es 
   | nil => simp [streamItems]
   | cons e es ih => rw [streamItems_ge]; simp; omega
 
+theorem length_le_encSEntries (es : List SEntry) : es.length ≤ (encSEntries es).length := by
+  induction es with
+  | nil => simp
+  | cons e es ih =>
+    have := encLen_length_pos (idString e).length
+    simp only [encSEntries, List.flatMap_cons, List.length_append, List.length_cons, encSEntry, encString] at ih ⊢
+    omega
+
 theorem streamLoop_enc (db : Db) (k : Bytes) (remaining : Nat) (hrem : remaining < two32) (hf : k ∉ keys db)
     (rest : Bytes) (es : List SEntry) :
     ∀ (acc : List SEntry) (idx fuel : Nat),
@@ -333,8 +341,10 @@ theorem loadTyped_stream (fix : Fix) (db : Db) (k : Bytes) (es : List SEntry) (d
     have hall' : (e :: es).all sentryWF = true := by
       simp only [List.all_eq_true]
       exact fun x hx => hall x hx
-    have := streamLoop_enc db k (streamItems (e :: es)) hrem hf rest (e :: es) [] 0 (1 + streamItems (e :: es))
-      (by omega) (by have := length_le_streamItems (e :: es); omega) (by simpa [lastId] using hinc) hall'
+    have := streamLoop_enc db k (streamItems (e :: es)) hrem hf rest (e :: es) [] 0
+      ((encSEntries (e :: es) ++ rest).length + 1)
+      (by omega) (by have := length_le_encSEntries (e :: es); simp only [List.length_append]; omega)
+      (by simpa [lastId] using hinc) hall'
     simp only [streamState] at this
     rw [this]
     simp only [Res.bind_ok, List.nil_append, expireOpt_put, lift_ok]
